@@ -627,6 +627,7 @@ type harness struct {
 	cpool       []poolEntry
 	nsweep      int
 	nshapeModel int
+	shapeCap    int
 }
 
 func (h *harness) noteCurrent(doc []byte) {
